@@ -30,10 +30,10 @@ class SchedEngine(Engine):
         self.name = "sched.%s" % flavour
 
     def n_cases(self, tier):
-        return 12 if tier == "quick" else 150
+        return 5 if tier == "quick" else 150
 
     def runs(self, tier):
-        return 40 if tier == "quick" else 400
+        return 30 if tier == "quick" else 400
 
     def corpus(self):
         f = self.flavour
@@ -41,11 +41,11 @@ class SchedEngine(Engine):
         base = []
         if FLAVOURS[f][1] >= 2:
             # the shapes that exposed F-01 / F-02 / F-08
-            base.append("%s %d 150 7 | P: s s s | P: s ts | C: r D | C: tr rt D" % (f, max(cap, 2) if cap else 0))
-            base.append("%s %d 150 8 | P: s s | P: s | C: r D | C: rt D" % (f, cap))
+            base.append("%s %d 60 7 | P: s s s | P: s ts | C: r D | C: tr rt D" % (f, max(cap, 2) if cap else 0))
+            base.append("%s %d 60 8 | P: s s | P: s | C: r D | C: rt D" % (f, cap))
         else:
-            base.append("%s %d 150 9 | P: s s s | C: r rt D" % (f, cap))
-            base.append("%s %d 150 10 | P: s ts s s | C: rt r D" % (f, cap))
+            base.append("%s %d 60 9 | P: s s s | C: r rt D" % (f, cap))
+            base.append("%s %d 60 10 | P: s ts s s | C: rt r D" % (f, cap))
         return base
 
     def gen(self, rng, tier):
